@@ -76,7 +76,8 @@ inductive LeaderOp : Op → Prop
   | transferTimeout : LeaderOp .transferTimeout
   | timeoutNowResult (src : Nat) (err : Bool) (result : Nat) : LeaderOp (.timeoutNowResult src err result)
 
-theorem handle_G (s₀ x : Node) (op : Op) (hV : V s₀ x) (hl : x.role = .leader) (hok : OpOk op) (hop : LeaderOp op) :
+theorem handle_G (s₀ x : Node) (op : Op) (hV : V s₀ x) (hl : x.role = .leader) (hok : OpOk op) (hop : LeaderOp op)
+    (hsr : ∀ task c, op = .changeConfig task c → Srt x.configs.latest → Srt c) :
     G s₀ x (x.handle op) ∧ NC (x.handle op) := by
   have hnc : NC x := by unfold NC; rw [hl]; exact fun e => by cases e
   cases hop with
@@ -89,7 +90,7 @@ theorem handle_G (s₀ x : Node) (op : Op) (hV : V s₀ x) (hl : x.role = .leade
     unfold Node.handle
     dsimp only
     rw [if_pos hl]
-    exact ⟨(onChangeConfig_one s₀ 1 (by omega) x task c hV hok).1, nc_onChangeConfig hnc _ _⟩
+    exact ⟨(onChangeConfig_one s₀ 1 (by omega) x task c hV hok (hsr task c rfl)).1, nc_onChangeConfig hnc _ _⟩
   | replUpdates us =>
     unfold Node.handle
     dsimp only
@@ -110,7 +111,8 @@ theorem handle_G (s₀ x : Node) (op : Op) (hV : V s₀ x) (hl : x.role = .leade
 
 /-- **step_chain_partial — the configuration entries of one step, through single-voter configurations.**  For a leader
 in a state with `Start` (part of `NoPanic.Good`: `start_of_good`) handling `newEntries` (without configuration items),
-`changeConfig` (distinct member ids), `replUpdates`, `transferTimeout` or `timeoutNowResult` — with any oracle, any input,
+`changeConfig` (distinct member ids — strictly increasing if those of the latest configuration are: `hsr`, needed only for
+`Link.srt`), `replUpdates`, `transferTimeout` or `timeoutNowResult` — with any oracle, any input,
 if the step does not fail: there is a list `ext` of log entries — the entries appended within the step, in this order: the
 log afterwards is (a suffix, after compaction, of) the old log followed by `ext` — such that EVERY configuration entry of
 `ext`, however many there are and however deeply nested the call that stored it, is `Link`ed to the configuration before
@@ -118,16 +120,22 @@ it (the first to `s.configs.latest`, the last is `s'.configs.latest`): their vot
 new one has a voter and keeps a voter without pending action, and at the moment it was stored — `y` is the node's state
 right then — its predecessor was committed, no transfer was in progress, an entry of the leader's own term was committed
 (`y.canChangeConfig`), the leader's own entry was a voter, and it is the next log entry, of the leader's term.
+(`C08OneSys.step_chain_any_partial` extends this to every role and every operation other than append / install requests.)
 PARTIAL: the other operations (requests from peers, timers, elections, snapshots, `waitStable`, `transfer`, `shutdown`)
 store no entry as leader unless the node is RE-elected inside the step (`leader.init`: `leaderInit_chain`, not wired into
 `Node.step` here); steps that fail (only the model's recursion budget can, from
 `NoPanic.Good`) are excluded. -/
 theorem step_chain_partial (s : Node) (op : Op) (ra : List Nat) (ord : List (List Nat)) (hS : Start s)
-    (hl : s.role = .leader) (hok : OpOk op) (hop : LeaderOp op) (hp : (s.step op ra ord).panicked = none) :
+    (hl : s.role = .leader) (hok : OpOk op) (hop : LeaderOp op)
+    (hsr : ∀ task c, op = .changeConfig task c → Srt s.configs.latest → Srt c)
+    (hp : (s.step op ra ord).panicked = none) :
     LogChain s (s.step op ra ord) := by
   have hne : op ≠ .shutdown := by intro e; rw [e] at hop; cases hop
   rw [TL.step_eq_settle s op ra ord hne] at hp ⊢
   obtain ⟨g, hnc⟩ := handle_G (s.begin ra ord) (s.begin ra ord) op (v_begin hS ra ord) hl hok hop
+    (fun task c e hs => by
+      have := (hok : OpOk op)
+      exact hsr task c e hs)
   generalize (s.begin ra ord).handle op = h at *
   rw [hl] at hp ⊢
   have fin : h.panicked = none → LogChain (s.begin ra ord) h := by
@@ -153,7 +161,7 @@ the commit of that entry sets off at once (pending removals / promotions: `leade
 nested as deep as they go — form a `Chain1` from the latest configuration. -/
 theorem leaderInit_chain (s : Node) (hli : s.configs.latest.index ≤ s.lastLogIndex) (hanch : AnchC s.configs.latest)
     (hp : s.leaderInit.panicked = none) : LogChain s s.leaderInit := by
-  rcases (leaderInit_G s hli hanch).2 with h | ⟨h, _⟩
+  rcases (leaderInit_G s s (PW.refl s hli hanch)).2 with h | ⟨h, _⟩
   · exact absurd hp h
   · exact h.chain hp
 
@@ -205,9 +213,9 @@ theorem chain_links {c₀ c : Config} {es : List Entry} (h : Chain1 c₀ es c) :
 open C15Tasks in
 /-- what is asked of the state when a leader handles a ChangeConfig request: `Start`, `TL.Hs` (a leader whose latest
 configuration is committed is a voter by its cached own entry; the latest configuration is in the log) — both hold in every
-`NoPanic.Good` state — and distinct member ids in the request. (Vacuous for every other operation.) -/
+`NoPanic.Good` state — and strictly increasing member ids in the request (`Config.Nodes` is a Go map keyed by id: `Srt`). (Vacuous for every other operation.) -/
 def OneOK (s : Node) (op : Op) : Prop :=
-  ∀ task c, op = .changeConfig task c → s.role = .leader → Start s ∧ TL.Hs s ∧ (c.nodes.map (·.id)).Nodup
+  ∀ task c, op = .changeConfig task c → s.role = .leader → Start s ∧ TL.Hs s ∧ Srt c
 
 /-- **the ledger through one step, exact count, through single-voter configurations**: unless the step failed, the
 occurrences of `t` among the answers and the pending places afterwards are exactly those pending before plus those
@@ -219,7 +227,8 @@ theorem step_rel_one (t : Nat) (ht : t ≠ 0) (s : Node) (op : Op) (ra : List Na
   have := (TL.step_rel_m t ht s op ra ord ho hq 0 (fun task c e hl => by
     obtain ⟨a, b, d⟩ := hcc task c e hl
     have hs : Hs (s.begin ra ord) := fun hc => b.1 (TL.isCommitted_of_canChange hc)
-    exact ((onChangeConfig_one (s.begin ra ord) t ht (s.begin ra ord) task c (v_begin a ra ord) d).2 hs).cast
+    exact ((onChangeConfig_one (s.begin ra ord) t ht (s.begin ra ord) task c (v_begin a ra ord) (nodup_of_sorted d)
+      (fun _ => d)).2 hs).cast
       (by omega))).2.2 hp
   rw [this]; omega
 
@@ -243,7 +252,7 @@ theorem oneOK_of_good {T : Bool} (s : Node) (op : Op) (hG : NoPanic.Good T s) (h
     (hr : NoPanic.ReqOk' T s op) : OneOK s op := by
   intro task c e hl
   subst e
-  exact ⟨start_of_good hG hopen hl, C15Tasks.hs_of_good s hG hopen hl, nodup_of_sorted hr.1.1⟩
+  exact ⟨start_of_good hG hopen hl, C15Tasks.hs_of_good s hG hopen hl, hr.1.1⟩
 
 /-- **task_step_one — one step of a node in a `NoPanic.Good` state, ANY operation, one stable voter suffices.**  With
 `s' = s.step op …` (any oracle, any input), from `Good T s` (any `T`: `Good false` asks for ONE voter without pending action),
@@ -394,7 +403,8 @@ example : LogChain exS (exS.step (.newEntries [{ typ := etUpdate, data := "y", t
   step_chain_partial exS _ [] []
     ⟨(C06Cache.cacheOK_iff _).mp ⟨by decide, by decide, by decide, by decide, by decide⟩, by decide,
       Or.inr ⟨1, { id := 1, addr := "a:1", voter := true }, by decide, rfl, rfl⟩⟩
-    rfl (fun q hq => by rw [List.mem_singleton.mp hq]; decide) (.newEntries _) (by decide +kernel)
+    rfl (fun q hq => by rw [List.mem_singleton.mp hq]; decide) (.newEntries _) (fun _ _ e => by cases e)
+    (by decide +kernel)
 
 theorem exS_good : NoPanic.Good false exS :=
   ⟨rfl,
